@@ -107,4 +107,72 @@ theorem ratFam_inv0 (s : Rat) : (ratFam 0 s).ppfA ((ratFam 0 s).cdfA 0) = 0 := b
   unfold ratPpf ratCdf
   simp
 
+/-! ### families whose support starts at a location `lo ≥ 0` (a fitted / fixed `loc`): the laws on `(lo, ∞)` -/
+
+structure AmountLawsOn (lo : Rat) (A : Amounts) : Prop where
+  pos : ∀ x, lo < x → 0 < A.cdfA x ∧ A.cdfA x < 1
+  mono : ∀ x y, lo < x → x < y → A.cdfA x < A.cdfA y
+  inv : ∀ x, lo < x → A.ppfA (A.cdfA x) = x
+
+theorem amountLaws_iff (A : Amounts) : AmountLaws A ↔ AmountLawsOn 0 A :=
+  ⟨fun h => ⟨h.pos, h.mono, h.inv⟩, fun h => ⟨h.pos, h.mono, h.inv⟩⟩
+
+theorem ratCdf_form {loc s x : Rat} (hs : 0 < s) (hx : loc < x) : ratCdf loc s x = (x - loc) / (s + (x - loc)) := by
+  unfold ratCdf
+  rw [if_neg (not_le.mpr hx)]
+  have h1 : 0 < x - loc := by linarith
+  have : s + (x - loc) ≠ 0 := by positivity
+  have hs' : s ≠ 0 := ne_of_gt hs
+  field_simp
+
+theorem ratFamLoc_laws (loc s : Rat) (hs : 0 < s) : AmountLawsOn loc (ratFam loc s) := by
+  refine ⟨fun x hx => ?_, fun x y hx hxy => ?_, fun x hx => ?_⟩
+  · show 0 < ratCdf loc s x ∧ ratCdf loc s x < 1
+    rw [ratCdf_form hs hx]
+    have h1 : 0 < x - loc := by linarith
+    have h : 0 < s + (x - loc) := by positivity
+    exact ⟨div_pos h1 h, by rw [div_lt_one h]; linarith⟩
+  · show ratCdf loc s x < ratCdf loc s y
+    have hy : loc < y := lt_trans hx hxy
+    rw [ratCdf_form hs hx, ratCdf_form hs hy]
+    have h1 : 0 < x - loc := by linarith
+    have h2 : 0 < y - loc := by linarith
+    rw [div_lt_div_iff₀ (by positivity) (by positivity)]
+    nlinarith
+  · show ratPpf loc s (ratCdf loc s x) = x
+    rw [ratCdf_form hs hx]
+    unfold ratPpf
+    have h1 : 0 < x - loc := by linarith
+    have h : s + (x - loc) ≠ 0 := by positivity
+    have h2 : (1 : Rat) - (x - loc) / (s + (x - loc)) = s / (s + (x - loc)) := by field_simp; ring
+    rw [h2]
+    have hs' : s ≠ 0 := ne_of_gt hs
+    field_simp
+    ring
+
+/-- selecting positions commutes with a pointwise map -/
+theorem map_select {α β} (g : α → β) (xs : List α) (d : α) (idx : List Nat) :
+    (idx.map (fun i => xs.getD i d)).map g = idx.map (fun i => (xs.map g).getD i (g d)) := by
+  rw [List.map_map]
+  apply List.map_congr_left
+  intro i _
+  simp only [Function.comp]
+  rw [List.getD_eq_getElem?_getD, List.getD_eq_getElem?_getD]
+  by_cases h : i < xs.length <;> simp [h]
+
+/-- … and with a pointwise map of two aligned vectors -/
+theorem zipWith_select {α β γ} (g : α → β → γ) (xs : List α) (us : List β) (dx : α) (du : β) (idx : List Nat)
+    (hlen : xs.length = us.length) :
+    List.zipWith g (idx.map (fun i => xs.getD i dx)) (idx.map (fun i => us.getD i du)) =
+      idx.map (fun i => (List.zipWith g xs us).getD i (g dx du)) := by
+  rw [List.zipWith_map_left, List.zipWith_map_right, List.zipWith_self]
+  apply List.map_congr_left
+  intro i _
+  rw [List.getD_eq_getElem?_getD, List.getD_eq_getElem?_getD, List.getD_eq_getElem?_getD]
+  by_cases h : i < xs.length
+  · have h' : i < us.length := by omega
+    simp [h, h']
+  · have h' : ¬ i < us.length := by omega
+    simp [h, h']
+
 end Lemmas.Precip
